@@ -407,11 +407,17 @@ Fixpoint ocalls_eqb (l1 l2 : list (option (Z * Z))) : bool :=
   | _, _ => false
   end.
 
+(* all phased members carry the same phase-set id at a variant (the assumption behind with_ps) *)
+Definition ps_uniform (cs : list call) : bool :=
+  let pss := flat_map (fun c : call => match c with Some (_, _, p) => [p] | None => [] end) cs in
+  match pss with [] => true | p :: r => forallb (Z.eqb p) r end.
+
 Definition cli_l2 (c : nat * list triple * bool * list cli_col) : bool :=
   match c with (n, ts, genetic, cols) =>
     forallb (fun col : cli_col =>
                match col with (gs, cs, tv, covered, acc, es, l) =>
                  Bool.eqb (accessible n ts false genetic gs covered) acc
+                 && ps_uniform cs
                  && match tv with
                     | Some t =>
                         acc
